@@ -18,11 +18,23 @@ statements does not matter; any other shape raises Untranslatable.
 import ast
 
 from .. import translate
+from . import normalize
 from ..translate import Untranslatable
-from .threshold import _expr, _find_func, _str_const
+from .threshold import _expr, _find_func, _str_const, parse_tcu
 
 TCU = "fairlearn/postprocessing/_tradeoff_curve_utilities.py"
 CMP = {ast.LtE: "≤", ast.Lt: "<", ast.GtE: "≥", ast.Gt: ">"}
+# the arithmetic terms this lifter emits for the pinned source: a term that differs from one of them only by the order of
+# the two operands of a `+` / `*` (commutative in Rat and, bit for bit, in IEEE-754) is emitted in the pinned spelling
+PINNED_TERMS = [
+    "decide (((r1y - r0y) * (r2x - r0x)) ≤ ((r2y - r0y) * (r1x - r0x)))",
+    "(((interpP0 xcur xnext g) * ycur) + ((interpP1 xcur xnext g) * ynext))",
+    "((t + s) / (2 : Rat))",
+]
+
+
+def _pin(term):
+    return normalize.lean_prefer(term, PINNED_TERMS)
 
 
 def U(msg):
@@ -194,6 +206,9 @@ def _hull(tree):
             raise U(f"hull: unknown name {node.id} in the turn test")
         return None
     lhs, rhs = _expr(test.left, atom), _expr(test.comparators[0], atom)
+    cmp_op = type(test.ops[0])
+    if cmp_op in (ast.GtE, ast.Gt):        # `b >= a` is `a <= b`
+        lhs, rhs, cmp_op = rhs, lhs, {ast.GtE: ast.LtE, ast.Gt: ast.Lt}[cmp_op]
     # return pd.DataFrame(selected)[["x", "y", "operation"]]
     rv = ret.value if isinstance(ret, ast.Return) else None
     if not (isinstance(rv, ast.Subscript) and isinstance(rv.value, ast.Call) and len(rv.value.args) == 1
@@ -203,7 +218,7 @@ def _hull(tree):
     if cols != ["x", "y", "operation"]:
         raise U(f"hull: returned columns {cols}")
     return {"min_len": min_len, "r1_back": lo, "r0_back": hi, "pops_last": pop_idx == -1,
-            "test": f"decide ({lhs} {CMP[type(test.ops[0])]} {rhs})", "test_src": ast.unparse(test)}
+            "test": _pin(f"decide ({lhs} {CMP[cmp_op]} {rhs})"), "test_src": ast.unparse(test)}
 
 
 # ------------------------------------------------------------------------------------------ interpolation
@@ -323,7 +338,7 @@ def _interp(tree):
     for e in (num, den, p1):
         if "ycur" in e or "ynext" in e:
             raise U("_interpolate_curve: the weights depend on y values")
-    return {"num": num, "den": den, "p1": p1, "y": y, "op0_next": ops["op0"], "op1_next": ops["op1"]}
+    return {"num": num, "den": den, "p1": p1, "y": _pin(y), "op0_next": ops["op0"], "op1_next": ops["op1"]}
 
 
 def _indices(tree):
@@ -505,7 +520,7 @@ def _sweep(tree):
         if isinstance(node, ast.Subscript):
             raise U(f"sweep: unknown term {ast.unparse(node)} in the midpoint")
         return None
-    mid = _expr(e2.value, atom)
+    mid = _pin(_expr(e2.value, atom))
     # count = [0, 0]; i = 0
     assigns, _ = _single_assigns(body)
     c0 = assigns.get(cnt)
@@ -524,19 +539,28 @@ def _sweep(tree):
     appended = {}
     for s in fors[0].body:
         if isinstance(s, ast.Expr) and isinstance(s.value, ast.Call) and isinstance(s.value.func, ast.Attribute) \
-                and s.value.func.attr == "append" and len(s.value.args) == 1 and isinstance(s.value.args[0], ast.Name):
-            appended[_name(s.value.func.value, "list")] = s.value.args[0].id
+                and s.value.func.attr == "append" and len(s.value.args) == 1 and not s.value.keywords:
+            lst = _name(s.value.func.value, "list")
+            if lst in appended:
+                raise U(f"sweep: two appends to {lst} in the operations loop")
+            appended[lst] = s.value.args[0]
+
+    def value_of(node):
+        """the appended value: a local of the loop body (resolved through its single assignment) or the expression itself"""
+        if isinstance(node, ast.Name) and node.id in fa:
+            return fa[node.id]
+        return node
 
     def metric_of(var):
-        v = fa.get(var)
+        v = value_of(var)
         if isinstance(v, ast.Call) and isinstance(v.func, ast.Subscript) and isinstance(v.func.value, ast.Name) \
                 and v.func.value.id == "METRIC_DICT" and isinstance(v.func.slice, ast.Name) and len(v.args) == 1 \
                 and isinstance(v.args[0], ast.Name) and v.args[0].id == cvar:
             return v.func.slice.id
-        raise U(f"sweep: {var} is not METRIC_DICT[<metric>](counts)")
+        raise U(f"sweep: {ast.unparse(var) if var is not None else None} is not METRIC_DICT[<metric>](counts)")
 
     def op_ok(var):
-        v = fa.get(var)
+        v = value_of(var)
         return (isinstance(v, ast.Call) and isinstance(v.func, ast.Name) and v.func.id == "ThresholdOperation"
                 and len(v.args) == 2 and not v.keywords and isinstance(v.args[0], ast.Name) and v.args[0].id == opstr
                 and isinstance(v.args[1], ast.Name) and v.args[1].id == thr)
@@ -622,7 +646,9 @@ def _scores(tree):
     cret = [s for s in _body(gc) if isinstance(s, ast.Return)]
     if cdup or len(cret) != 1 or not isinstance(cret[0].value, ast.Tuple) or len(cret[0].value.elts) != 3:
         raise U("_get_counts: shape changed")
-    rn, rp, rg = [_name(e, "count") for e in cret[0].value.elts]
+    rn, rp, rg = cret[0].value.elts
+    if lab in ca or any(not isinstance(x, (ast.Assign, ast.Return)) for x in _body(gc)) or len(_body(gc)) != len(ca) + 1:
+        raise U("_get_counts: statements other than single assignments of locals and the return")
 
     def atom(node):
         if isinstance(node, ast.Call) and isinstance(node.func, ast.Name) and len(node.args) == 1 \
@@ -637,7 +663,7 @@ def _scores(tree):
                 return _expr(ca[node.id], atom)
             raise U(f"_get_counts: unknown name {node.id}")
         return None
-    counts = {"n": _expr(ca[rn], atom), "npos": _expr(ca[rp], atom), "nneg": _expr(ca[rg], atom)}
+    counts = {"n": _expr(rn, atom), "npos": _expr(rp, atom), "nneg": _expr(rg, atom)}
     # the caller unpacks (n, n_positive, n_negative) in this order
     call = [v for v in a.values() if isinstance(v, ast.Call) and isinstance(v.func, ast.Name) and v.func.id == "_get_counts"]
     tup = [s for s in _body(fn) if isinstance(s, ast.Assign) and isinstance(s.targets[0], ast.Tuple)
@@ -685,7 +711,7 @@ def _b(v):
 
 @translate.lifter
 def lift_tradeoff(repo):
-    tree = ast.parse(translate._read(repo, TCU))
+    tree = parse_tcu(repo)
     h = _hull(tree)
     ip = _interp(tree)
     ix = _indices(tree)
